@@ -29,9 +29,10 @@ MONITORS = ["entry_point", "construction_oracle", "lenient_equals_stripped", "st
 REQUIRED = ["lower_case_key", "duplicate_key", "param_after_notes", "stray_before_first_param", "stray_between",
             "stray_after", "missing_semicolon", "bom", "crlf", "short_chart", "file_other_suffix", "version_mixed_case",
             "lower_case_multi_value_key", "long_preamble_before_version", "key_only_param", "corpus_mutation",
-            "version_key_spelled_with_escape", "key_only_notes_then_more_parameters"]
+            "version_key_spelled_with_escape", "key_only_notes_then_more_parameters",
+            "non_ascii_letter_that_upper_cases_to_ascii_in_key", "version_key_with_dotless_i_or_long_s"]
 
-FILE_NAMES = ["x.sm", "x.ssc", "x.SM", "x.SsC", "x.txt", "x.sm.bak", ".sm", "noext"]
+FILE_NAMES = ["x.sm", "x.ssc", "x.SM", "x.SsC", "x.txt", "x.sm.bak", ".sm", "noext", "x.v2.ssc", "song.ssc.sm"]
 
 
 def anchors():
@@ -284,6 +285,10 @@ def observe_features(ctx, segs, params, case):
     keys = [k for k, _ in params]
     if any(k != k.upper() for k in keys):
         ctx.feat("lower_case_key")
+    if any(ord(ch) > 127 and ch.upper().isascii() for k in keys for ch in k):
+        ctx.feat("non_ascii_letter_that_upper_cases_to_ascii_in_key")
+    if keys and keys[0].upper() == "VERSION" and not keys[0].isascii():
+        ctx.feat("version_key_with_dotless_i_or_long_s")
     if any(k != k.upper() and k.upper() in L.MULTI and len(c) >= 2 for k, c in params):
         ctx.feat("lower_case_multi_value_key")
     ups = [k.upper() for k in keys]
